@@ -1,17 +1,20 @@
 #!/bin/bash
-# Apply one patch to /repo, run the given checks (quick tier), undo the patch. Never leaves /repo modified.
-# Usage: ./tools_try_patch.sh <patch.diff> <ID> [ID ...]     prints one line per check: exit code, violations, labels
+# Apply one patch to a scratch worktree of /repo (HEAD), run the given checks against it, remove the worktree.
+# /repo itself is never touched; evidence/ of /verif is not overwritten (VERIF_OUT scratch).
+# Usage: [TIER=thorough] ./tools_try_patch.sh <patch.diff> <ID> [ID ...]   one line per check: exit code, violations, labels
 cd "$(dirname "$0")"; V=$(pwd)
 p=$(readlink -f "$1"); shift
-git -C /repo checkout -- . 2>/dev/null
-if ! git -C /repo apply --check "$p" 2>/dev/null; then echo "PATCH DOES NOT APPLY: $p"; exit 3; fi
-git -C /repo apply "$p"
-trap 'git -C /repo checkout -- .' EXIT
+tag=$(basename $(dirname "$p"))_$(basename "$p" .diff)_$$
+wt=/tmp/vwt-$tag; out=/tmp/vout-$tag
+git -C /repo worktree add --detach $wt HEAD >/dev/null 2>&1 || { echo "cannot create worktree"; exit 3; }
+trap 'git -C /repo worktree remove --force $wt >/dev/null 2>&1; rm -rf $out' EXIT
+if ! git -C $wt apply "$p" 2>/dev/null; then echo "PATCH DOES NOT APPLY: $p"; exit 3; fi
+mkdir -p $V/out/try
 for id in "$@"; do
-  out=$(timeout 2400 ./check $id ${TIER:-quick} 2>&1); rc=$?
-  mkdir -p out/try; echo "$out" > out/try/$(basename $(dirname "$p"))_$(basename "$p")_$id.log
-  v=$(echo "$out" | grep -c '^VIOLATION')
-  lab=$(echo "$out" | grep 'harness=' | sed -E 's/.*harness=([^ ]+) (assert|panic|bigalloc|deadlock|exit) label=([^ ]+).*/\1:\3/' | sort -u | head -4 | tr '\n' ' ')
-  inc=$(echo "$out" | grep -E "INCONCLUSIVE" | head -3 | tr '\n' ' ')
+  o=$(VERIF_REPO=$wt VERIF_OUT=$out timeout 3000 ./check $id ${TIER:-quick} 2>&1); rc=$?
+  echo "$o" > $V/out/try/${tag%_*}_$id.log
+  v=$(echo "$o" | grep -c '^VIOLATION')
+  lab=$(echo "$o" | grep 'harness=' | sed -E 's/.*harness=([^ ]+) (assert|panic|bigalloc|deadlock|exit) label=([^ ]+).*/\1:\3/' | sort -u | head -4 | tr '\n' ' ')
+  inc=$(echo "$o" | grep -E "INCONCLUSIVE" | head -3 | cut -c1-300 | tr '\n' ' ')
   echo "$id: exit=$rc violations=$v $lab $inc"
 done
